@@ -34,6 +34,7 @@ type c17Scenario struct {
 	JoinChan   bool      `json:"join_chan"` // tracking: share a channel with other users
 	PlainWelcome bool    `json:"plain_welcome"` // the welcome text does not end in nick!user@host
 	LateGen    bool      `json:"late_generator"` // Config().NewNick is assigned after Client(), before Connect()
+	SwapGen    string    `json:"swap_generator"` // "" or the generator the application installs through Config() after the welcome
 	Steps      []c17Step `json:"steps"`
 }
 
@@ -78,6 +79,10 @@ func genC17(t *rapid.T) *c17Scenario {
 	}
 	if sc.Welcome == "other" {
 		cur = "srvgiven"
+	}
+	if rapid.IntRange(0, 2).Draw(t, "swap_generator") == 0 {
+		sc.SwapGen = rapid.SampledFrom([]string{"default", "underscore", "rotate", "table"}).Draw(t, "swapped_generator")
+		gen = c17Gen(sc.SwapGen)
 	}
 	prev := sc.Nick
 	others := []string{"ann", "bob"}
@@ -250,6 +255,11 @@ func runC17(sc *c17Scenario) *Violation {
 	mu.Unlock()
 	if len(ic) != 1 || ic[0] != cur {
 		return violationf("C17", "inside the CONNECTED handler Me() reported %q, the welcome line said %q", ic, cur)
+	}
+	if sc.SwapGen != "" {
+		// the application changes its mind about alternative nicks on the connected client
+		gen = c17Gen(sc.SwapGen)
+		tc.C.Config().NewNick = gen
 	}
 	others := []string{"ann", "bob"}
 	if sc.Tracking && sc.JoinChan {
